@@ -3,8 +3,8 @@
 # (1) compiles + baseline tests still pass with the change, (2) its demonstration fails with the
 # change, (3) the demonstration passes without it.  On success the change is filed under /verif/seeded/.
 export GOFLAGS=-mod=mod GOPROXY=off GOSUMDB=off GOTOOLCHAIN=local
-ID=$1; M=$2; SRC=/tmp/seed/$ID/out/$M
-WT=/tmp/confirm-$ID-$M
+ID=$1; M=$2; SRC=${SEEDROOT:-/tmp/seed}/$ID/out/$M; OUTM=${3:-$M}
+WT=/tmp/confirm-$ID-$OUTM
 [ -f $SRC/patch.diff ] || { echo "no patch $SRC"; exit 2; }
 git -C /repo worktree add --detach $WT HEAD -q || exit 2
 cleanup() { git -C /repo worktree remove --force $WT; }
@@ -26,19 +26,19 @@ git apply -R $SRC/patch.diff
 go test -vet=off -count=1 -timeout 120s -run "^($tests)\$" ./$dir/ > /tmp/confirm-$ID-$M.without 2>&1; wo=$?
 echo "$res baseline_rc=$b demo_with_patch_rc=$w demo_without_rc=$wo"
 if [ $b = 0 ] && [ $w != 0 ] && [ $wo = 0 ]; then
-  D=/verif/seeded/$ID-$M; mkdir -p $D
+  D=/verif/seeded/$ID-$OUTM; mkdir -p $D
   cp $SRC/patch.diff $D/patch.diff; cp $SRC/demo_test.go $D/demo_test.go; cp $SRC/NOTES.md $D/NOTES.md 2>/dev/null
-  python3 - "$ID" "$M" "$dir" "$tests" <<'PY'
+  python3 - "$ID" "$OUTM" "$dir" "$tests" <<'PY'
 import json,sys
 id,m,d,tests=sys.argv[1:5]
-meta={"property":id,"mutant":m,"origin":"independent sub-agent given only the property text and a scratch worktree",
+meta={"breaks_property":id,"mutant":m,"origin":"independent sub-agent given only the property text and a scratch worktree",
  "needs_to_manifest":"see NOTES.md (written by the sub-agent)","demo_dir":d,"demo_tests":tests,
  "confirmed":{"baseline_with_patch":"700 stable tests pass (baseline.sh rc=0)","demo_with_patch":"FAIL","demo_without_patch":"PASS",
    "how":"/verif/confirm_seed.sh %s %s in a fresh scratch worktree of /repo HEAD"%(id,m)},
  "detected_by":"(filled in by seedrun.sh)"}
 json.dump(meta,open('/verif/seeded/%s-%s/meta.json'%(id,m),'w'),indent=1)
 PY
-  echo "CONFIRMED $ID-$M"
+  echo "CONFIRMED $ID-$OUTM"
 else
-  echo "NOT-CONFIRMED $ID-$M (see /tmp/confirm-$ID-$M.*)"
+  echo "NOT-CONFIRMED $ID-$OUTM (see /tmp/confirm-$ID-$M.*)"
 fi
